@@ -174,7 +174,7 @@ def run(tier, replay=None):
     futs = {}
     for name, text in mc_jobs:
         cfg = _write(wd, name + ".cfg", text)
-        futs[name] = pool.submit(vlib.tlc, "Handover", cfg, PID, 4 if not thorough else 6, 2400, None, None,
+        futs[name] = pool.submit(vlib.tlc, "Handover", cfg, PID, 3 if not thorough else 6, 2400, None, None,
                                  name == "mc_handover" and thorough)
 
     # ---- 3. codec leg
@@ -218,8 +218,25 @@ def run(tier, replay=None):
     hand = [r for r in good if r["cfg"]["mode"] == "handover"]
     soft = [r for r in good if r["cfg"]["mode"] == "softstop"]
     max_rounds = 12 if thorough else 6
-    acc = _validate(rep, wd, "handover", hand, "TRUE", consts, max_rounds)
-    acc += _validate(rep, wd, "softstop", soft, "FALSE", consts, max_rounds)
+
+    def per_hammer(rs):
+        """The hammers never interact (they only read the workers' state), and the cost of validating k of them
+        together is the product of their positions. Quick tier: one copy of the run per hammer stream, i.e. each
+        hammer must be explainable on its own (sound; it only gives up requiring ONE common schedule of the
+        workers' silent steps for all hammers). Thorough tier: the streams are validated together."""
+        if thorough:
+            return rs
+        out = []
+        for r in rs:
+            hs = r.get("ham", []) or [[]]
+            for i, h in enumerate(hs):
+                out.append(dict(r, ham=[h], part=i))
+        return out
+
+    n_parts = max(1, max(len(r.get("ham", [])) for r in good)) if not thorough else 1
+    acc = _validate(rep, wd, "handover", per_hammer(hand), "TRUE", consts, max_rounds)
+    acc += _validate(rep, wd, "softstop", per_hammer(soft), "FALSE", consts, max_rounds)
+    acc = acc // n_parts
     ham_events = sum(len(h) for r in good for h in r.get("ham", []))
     raw = sum(r.get("raw_exchanges", 0) for r in good)
     rep.cov["evaluations"] += raw + sum(len(r.get("ctl", [])) for r in good)
